@@ -49,7 +49,8 @@ def known_for(pid):
 
 def match_known(sig, known):
     for k in known:
-        if sig == k['signature'] or sig.startswith(k['signature'] + '|'):
+        ks = k['signature']
+        if sig == ks or sig.startswith(ks + '|') or sig.startswith(ks + ':'):
             return k
     return None
 
